@@ -229,26 +229,56 @@ def parseNat (s : String) : Option Nat := s.toNat?
 
 def parseVals (ws : List String) : Option (List V) := ws.mapM bytesOfHex
 
-def parseKV (s : String) : Option (Nat × V) :=
+/-- `k:v` = `insert(k, v)`; `k~v` = `get_mut_with(k, |_| Some(v))` (the value is only stored when
+the key is vacant, and `MaxMap::max_key` is not raised). The flag is `true` for `~`. -/
+def parseKVE (s : String) : Option (Bool × Nat × V) :=
   match s.splitOn ":" with
   | [k, v] => match k.toNat?, bytesOfHex v with
-    | some k, some v => some (k, v)
+    | some k, some v => some (false, k, v)
     | _, _ => none
-  | _ => none
+  | _ =>
+    match s.splitOn "~" with
+    | [k, v] => match k.toNat?, bytesOfHex v with
+      | some k, some v => some (true, k, v)
+      | _, _ => none
+    | _ => none
 
-def mkMap (kind : MapKind) (kvs : List (Nat × V)) : UMap V :=
-  kvs.foldl (fun m kv => m.insert kv.1 kv.2) (UMap.empty kind)
+def mkMapE (kind : MapKind) (kvs : List (Bool × Nat × V)) : UMap V :=
+  kvs.foldl (fun m e =>
+    if e.1 then (match m.get e.2.1 with
+      | some _ => m
+      | none => m.insertEntry e.2.1 e.2.2)
+    else m.insert e.2.1 e.2.2) (UMap.empty kind)
+
+/-- the plain association the entries denote (sorted, `:` overwrites, `~` keeps an existing value) -/
+def specAssoc (kvs : List (Bool × Nat × V)) : List (Nat × V) :=
+  kvs.foldl (fun (m : List (Nat × V)) e =>
+    if e.1 then (match assocGet e.2.1 m with
+      | some _ => m
+      | none => assocInsert e.2.1 e.2.2 m)
+    else assocInsert e.2.1 e.2.2 m) []
+
+/-- the largest key the map type reports: `MaxMap` only tracks keys passed to `insert`. -/
+def specMaxIndex (kind : MapKind) (kvs : List (Bool × Nat × V)) : Option Nat :=
+  let es := specAssoc kvs
+  if es.isEmpty then none
+  else match kind with
+    | .maxvec => some ((kvs.filter (fun e => !e.1)).foldl (fun a e => max a e.2.1) 0)
+    | _ => es.getLast?.map (·.1)
 
 /-- apply a write sequence to a plain list (later writes win; key = length appends). -/
-def specWrites (xs : List V) (kvs : List (Nat × V)) : List V :=
-  let sorted := (kvs.foldl (fun (m : List (Nat × V)) kv => assocInsert kv.1 kv.2 m) [])
-  sorted.foldl (fun acc kv => if kv.1 < acc.length then acc.set kv.1 kv.2 else acc ++ [kv.2]) xs
+def specWrites (xs : List V) (kvs : List (Bool × Nat × V)) : List V :=
+  (specAssoc kvs).foldl (fun acc kv => if kv.1 < acc.length then acc.set kv.1 kv.2 else acc ++ [kv.2]) xs
 
-def specAdmissible (N : Nat) (xs : List V) (kvs : List (Nat × V)) : Bool :=
-  let sorted := (kvs.foldl (fun (m : List (Nat × V)) kv => assocInsert kv.1 kv.2 m) [])
-  let keys := sorted.map (·.1)
-  keys.all (· < N) &&
-    (Coll.gapCheck xs.length (sorted.filter (fun p => p.1 ≥ xs.length))).isNone
+/-- admissible: every key is below `N` and not above what the map reports as its largest key, and
+the keys at or beyond the current length extend it contiguously. -/
+def specAdmissible (kind : MapKind) (N : Nat) (xs : List V) (kvs : List (Bool × Nat × V)) : Bool :=
+  let sorted := specAssoc kvs
+  match specMaxIndex kind kvs with
+  | none => true
+  | some mx =>
+    decide (mx < N) &&
+      (Coll.gapCheckMax mx xs.length (sorted.filter (fun p => p.1 ≥ xs.length))).isNone
 
 def iterCowPolicy (mode : String) (x : V) : Nat → V → Option V :=
   fun i _ =>
@@ -260,7 +290,7 @@ def iterCowPolicy (mode : String) (x : V) : Nat → V → Option V :=
     | _ => none
 
 def fmtIter (items : List (Nat × V)) (fin : Nat) : String :=
-  "ok" ++ String.join (items.map (fun p => s!" {p.1}:{hexOfBytes p.2}")) ++ s!" {fin}:"
+  "ok" ++ String.join (items.map (fun p => s!" {p.1}:{hexOfBytes p.2}")) ++ s!" {fin}: post=0"
 
 def specIter (xs : List V) (i : Nat) : String :=
   let total := xs.length
@@ -509,18 +539,18 @@ def step (w : World) (line : String) : World × Out :=
       | _, _ => badop
     | none => badop
   | "bulk" :: hs :: rest =>
-    match parseNat hs, rest.mapM parseKV with
+    match parseNat hs, rest.mapM parseKVE with
     | some hs, some kvs =>
       match slotGet w.colls hs, slotGet w.scolls hs with
       | some c, some s =>
         if s.kind = .vector then badop
         else
-          let (w1, m) : World × String := match c.bulkUpdate cfg (mkMap cfg.map kvs) with
+          let (w1, m) : World × String := match c.bulkUpdate cfg (mkMapE cfg.map kvs) with
             | .ok c' => ({ w with colls := slotSet w.colls hs c' }, "ok")
             | .error e => (w, fmtErr e)
           let (w2, sp) : World × String :=
             if s.dirty then (w1, "err BulkUpdateUnclean")
-            else if specAdmissible cfg.N s.xs kvs then
+            else if specAdmissible cfg.map cfg.N s.xs kvs then
               let s' : SColl := { s with xs := specWrites s.xs kvs, dirty := !kvs.isEmpty }
               ({ w1 with scolls := slotSet w1.scolls hs s' }, "ok")
             else (w1, "err *")
